@@ -22,7 +22,13 @@ PROPS = {
     "C05": P(5, ["C05"], stateful=True),
     "C06": P(6, ["C06"], stateful=True),
     "C07": P(7, ["C07"], stateful=True),
-    "C17": P(17, ["C17"], stateful=True),
+    "C17": P(17, ["C17"], stateful=True,
+        rule="iter ops on views of every series/bitfield/container kind: read-only iterator and index-based iterator run to their end plus extra calls, each element read at the step it is produced; CORR vs the explicit iterator state machines; "
+             "PROP: the sequence equals indexed access on the plain value, end exactly at the length and sticky; lengths inside/at/after 32-byte and 256-bit chunks, limits up to 2^40; distinct = distinct (type shape, value shape, op) per history position",
+        explanation="ZtypV.Props.C17.*: for ANY backing tree the three stack iterators produce exactly iterSpec(indexed access): length items in order, done for ever from length on, a failing indexed access reported as the same error for ever "
+                    "(navStep_spec under the ancestor-stack invariant; backtracking height = bitLen(i xor (i-1))); the index-based Iter() = Get(k) in order; read-only = index-based whenever every Get succeeds",
+        assumptions=["iterator constructed successfully (length=0 or depth<64 and length<=2^depth[*perNode])", "ro==indexed theorems need every Get(j) to succeed", "bitfields: limit <= 2^63 (C17_bit_limit_wraps records the construction-check wrap beyond; outside the quantifier's limits)",
+                     "on an error the model keeps the old stack where Go has partly overwritten it (only entries the retry rewrites anyway)"]),
     "C08": P(8, ["C08"],
         rule="CORR: model observation = Go observation for every mk.* op (streaming Merkleize, ChunksHTR, field lists, complex/basic lists and vectors, byte lists/vectors, bitlists/bitvectors, mix-in, union); PROP: equals the Spec root (merk/htr); "
              "all count <= limit <= 70 under both hashes, limits 2^k and 2^k±1 up to 2^64-1 with small counts, typed helpers at chunk boundaries; ops outside the property (count > limit, malformed bitfields) are CORR-only; distinct = distinct op shapes",
